@@ -4,6 +4,9 @@ EXTENDS ReqResp
 Sym == Permutations(Calls)
 AllCalls == Calls
 NoCalls == {}
+\* ReqResp_stall.cfg (no symmetry): the send of one call blocks in the network for ever, another call carries a deadline
+StallOne == {CHOOSE c \in Calls : TRUE}
+GiveUpOne == {CHOOSE c \in Calls \ StallOne : TRUE}
 \* terminal stuttering so that TLC's built-in deadlock detection reports exactly the ~AllDone dead ends
 MCNext == Next \/ (AllDone /\ UNCHANGED vars)
 MCSpec == Init /\ [][MCNext]_vars /\ WF_vars(Next)
